@@ -9,6 +9,7 @@ import shutil
 from .. import classify, drive, hist, world
 from ..oracle import xmlread
 
+TECHNIQUE = 'runtime monitoring: rename-map oracle over create -dr manifests, follow-up command exit codes, multi-generation rename chains'
 LEVEL = "exploration"
 RULE = (
     "case = single-history tree with pairwise distinct file contents, 1-3 prior generations, then 1-6 simultaneous file renames "
